@@ -59,7 +59,7 @@ class ScriptConn(refdc.Conn):
         self.ctx = secctx.ScriptedContext([], 16, role="server")
 
     def on_pdu(self, raw: bytes) -> t.Optional[bytes]:
-        d = rpc.decode(raw)
+        d = rpc.decode(raw, strict=False)
         self.slog["client_pdus"].append(d)
         pt = d["ptype"]
         if pt in (rpc.BIND, rpc.ALTER_CONTEXT):
